@@ -175,6 +175,15 @@ def main(tier: str) -> int:
         ("GeneticAlgorithm+g2p to one number", GeneticAlgorithm, dict(fitness_function=W.scalar_value_delayed, genotype_to_phenotype=W.g2p_rowsum, iters=3, pop_size=8, str_len=10)),
         ("DifferentialEvolution+g2p to one number", DifferentialEvolution, dict(fitness_function=W.scalar_value_delayed, genotype_to_phenotype=W.g2p_rowsum, iters=3, pop_size=7,
                                                                                 left_border=-2.0, right_border=2.0, num_variables=3)),
+        # what the objective returns belongs to the objective: a view of its argument, a read-only array, a buffer it reuses
+        ("DifferentialEvolution, objective returns a view", DifferentialEvolution, dict(fitness_function=W.first_column_view, iters=4, pop_size=8, left_border=-2.0, right_border=2.0,
+                                                                                      num_variables=3, minimization=True)),
+        ("GeneticAlgorithm+g2p, objective returns a view", GeneticAlgorithm, dict(fitness_function=W.first_column_view, genotype_to_phenotype=W.g2p_scale, iters=3, pop_size=8, str_len=10,
+                                                                               minimization=True)),
+        ("SHADE, objective returns a read-only array", SHADE, dict(fitness_function=W.readonly_sphere, iters=3, pop_size=7, left_border=-2.0, right_border=2.0, num_variables=2, minimization=True)),
+        ("DifferentialEvolution, objective reuses its output buffer", DifferentialEvolution, dict(fitness_function=W.buffered_sphere, iters=4, pop_size=8, left_border=-2.0, right_border=2.0,
+                                                                                               num_variables=3, minimization=True)),
+        ("SHAGA, objective reuses its output buffer", SHAGA, dict(fitness_function=W.buffered_sphere, iters=3, pop_size=7, str_len=10)),
     ]
     if tier == "quick":
         njs = [2, 3, 13, -1]
@@ -182,8 +191,13 @@ def main(tier: str) -> int:
         njs = [2, 3, 4, 5, 13, -1, -3]
     t0 = time.time()
     for name, cls, kw in fams:
-        base = run(cls, kw, 1, 0)
-        for nj in njs:
+        try:
+            base = run(cls, kw, 1, 0)
+        except Exception as e:  # noqa
+            if "objective" not in name:
+                raise
+            base = {"raised": (type(e).__name__ + ": " + str(e))[:200], "second_fit": None, "calls": None, "best": None}
+        for nj in (njs if "objective" not in name else njs[:2]):
             for delays in ((1, 2) if tier == "quick" else (1, 2, 3)):
                 try:
                     got = run(cls, kw, nj, delays)
